@@ -29,8 +29,15 @@ Theorem C09_slp_writer_refuses_only_then : forall g e,
   slp_write g = Err e -> assert_max_version_ok (st_version (g_start g)) = false /\ e = EInvalid.
 Proof. exact slp_write_err_only_version. Qed.
 
+From Peppi Require Proofs.WriterTies.
+(* the writer model these theorems speak about is the one regenerated from the source on this run: the statement sequence of write(),
+   the payload-size table, the frame counts, the frame writer, the gecko blocks, the metadata writer (Proofs/WriterTies.v writer_tied) *)
+Theorem C09_writer_is_the_source : WriterTies.writer_tied.
+Proof. exact WriterTies.writer_tied_holds. Qed.
+
 Print Assumptions C09_guard_iff.
 Print Assumptions C09_max_value.
 Print Assumptions C09_slp_writer_refuses.
 Print Assumptions C09_slpp_writer_refuses.
 Print Assumptions C09_slp_writer_refuses_only_then.
+Print Assumptions C09_writer_is_the_source.
